@@ -15,7 +15,8 @@ def TyWF : Ty → Bool
   | .int lo hi => (minInt ≤ lo && lo ≤ maxInt) && (minInt ≤ hi && hi ≤ maxInt)
   | .flt lo hi => (lo < 18446744073709551616 && !fIsNaN lo) && (hi < 18446744073709551616 && !fIsNaN hi)
   | .arr e lo hi => TyWF e && ((minInt ≤ lo && lo ≤ maxInt) && (minInt ≤ hi && hi ≤ maxInt))
-  | .var ts => TyWFL ts
+  | .enum _ vs => decide (vs.length < 9223372036854775807)              -- a Go slice length is an int (the flag counts as a parameter)
+  | .var ts => TyWFL ts && decide (ts.length ≤ 9223372036854775807)
   | .tup ts sz => (TyWFL ts && (match sz with
       | some (lo, hi) => (minInt ≤ lo && lo ≤ maxInt) && (minInt ≤ hi && hi ≤ maxInt)
       | none => true)) && decide ((ts.length : Int) ≤ maxInt)   -- a Go slice length is an int
@@ -189,8 +190,8 @@ theorem tyEq_refl : ∀ a : Ty, TyWF a = true → tyEq a a = true
       simp [tyEq, tyEq_refl e h.1]
   | .var ts, h => by
       rw [tyEq_var]
-      simp only [TyWF] at h
-      exact ⟨rfl, fun v hv => ⟨v, hv, tyEq_refl_all ts h v hv⟩, fun v hv => ⟨v, hv, tyEq_refl_all ts h v hv⟩⟩
+      simp only [TyWF, Bool.and_eq_true] at h
+      exact ⟨rfl, fun v hv => ⟨v, hv, tyEq_refl_all ts h.1 v hv⟩, fun v hv => ⟨v, hv, tyEq_refl_all ts h.1 v hv⟩⟩
   | .tup ts _, h => by
       simp only [TyWF, Bool.and_eq_true] at h
       simp [tyEq, tyEqL_refl ts h.1.1]
